@@ -162,13 +162,16 @@ def read_json(text):
     if "%TYPES" in data and data["%TYPES"] is not None:
         types = []
         for name, jt in data["%TYPES"].items():
+            # a type declaration is ONE object: the reserved keys and one member per feature, under whatever key - a feature
+            # named like a reserved key takes its place (the abstract document keeps every member that holds a feature object)
             feats = []
             for k, jf in jt.items():
-                if k.startswith("%"):
-                    continue
-                feats.append({"name": k, "range": jf["%RANGE"], "descr": jf.get("%DESCRIPTION"),
-                              "multi": jf.get("%MULTIPLE_REFERENCES_ALLOWED"), "elem": jf.get("%ELEMENT_TYPE")})
-            types.append({"name": name, "super": jt["%SUPER_TYPE"], "descr": jt.get("%DESCRIPTION"), "feats": feats})
+                if isinstance(jf, dict):
+                    feats.append({"name": k, "range": jf.get("%RANGE"), "descr": jf.get("%DESCRIPTION"),
+                                  "multi": jf.get("%MULTIPLE_REFERENCES_ALLOWED"), "elem": jf.get("%ELEMENT_TYPE")})
+            sup = jt.get("%SUPER_TYPE")
+            dd = jt.get("%DESCRIPTION")
+            types.append({"name": name, "super": sup if isinstance(sup, str) else "", "descr": dd if isinstance(dd, str) else None, "feats": feats})
     fss = []
     raw = data.get("%FEATURE_STRUCTURES") or []
     items = [(None, f) for f in raw] if isinstance(raw, list) else [(int(k), f) for k, f in raw.items()]
